@@ -190,8 +190,9 @@ def strategy(tier):
         recs = [{f: draw(st.sampled_from(VALUES)) for f in FIELDS} for _ in range(nrec)]
         reps = draw(st.lists(st.sampled_from(("dict", "attr", "scalar") if single else ("dict", "attr")), min_size=nrec, max_size=nrec))
         agg = draw(st.sampled_from(("Sum", "Bin", "Select", "Categorize")))
-        # optionally give field z a name that also exists in math's namespace: record fields must win
-        alias = draw(st.sampled_from((None, None, "e", "pi", "gamma", "tau")))
+        # optionally give field z a name that also exists in math's namespace, among Python's builtins, or among the
+        # attributes of numpy arrays / record arrays / DataFrames: record fields must win
+        alias = draw(st.sampled_from((None, None, "e", "pi", "gamma", "tau", "size", "shape", "T", "real", "mean", "sum", "min", "max", "data", "ndim")))
         return {"mode": "expression", "expr": e, "records": recs, "reps": reps, "vector": vector, "single": single, "boolean": boolean, "agg": agg,
                 "vrep": draw(st.sampled_from(("dict", "recarray", "df"))), "alias": alias}
 
